@@ -159,7 +159,14 @@ Build(s, rs, main, procs, repl, fault) ==
 RelevantRules(s) == UNION {{s[o].kind, IF s[o].parent = 0 THEN s[o].kind
                                        ELSE CarrierMeta[s[s[o].parent].kind][SlotIndex(s[s[o].parent].kind, s[o].slot)].decl}
                              : o \in 1..Len(s)}
-Tables(s) == SetToSeq({<<P, R>> \in (SUBSET RelevantRules(s)) \X (SUBSET RelevantRules(s)) : R \subseteq P})
+\* every (processors, replacing processors) table over the rules that matter for the shape;
+\* for the largest shapes (4 objects and more): all replacement subsets with every rule
+\* registered, and all registration subsets without replacement
+Tables(s) ==
+  LET rel == RelevantRules(s) IN
+  SetToSeq(IF Len(s) <= 3
+           THEN {<<P, R>> \in (SUBSET rel) \X (SUBSET rel) : R \subseteq P}
+           ELSE {<<rel, R>> : R \in SUBSET rel} \cup {<<P, {}>> : P \in SUBSET rel})
 
 C13Scenarios(u) ==
   LET S == Shapes IN
